@@ -67,7 +67,8 @@ def _case(draw):
             lon = d["ref_lon"] + math.degrees(x / (R_EARTH * math.cos(math.radians(d["ref_lat"]))))
         else:
             lat, lon = draw(gen.fl(-60.0, 60.0)), draw(gen.fl(-180.0, 180.0))
-        towers.append({"name": f"T{t}", "lat": lat, "lon": lon, "z_m": zm})
+        # names and labels that LOOK numeric must stay strings on every route (YAML quotes them)
+        towers.append({"name": draw(st.sampled_from([f"T{t}", f"{7 + t}", f"{t + 1}e3", f"0{t}", f"north{t}"])), "lat": lat, "lon": lon, "z_m": zm})
     nt = draw(st.integers(1, 3))
     aslist = nt > 1 or draw(st.booleans())
     closure = draw(st.sampled_from(["MOST", "MOSTM", "CONSTANT", "OAAHOC"]))
@@ -94,7 +95,10 @@ def _case(draw):
             us = [us[0]] * nt
         met["ustar"] = us if aslist else us[0]
     if draw(st.booleans()):
-        met["timestamps"] = [f"s{i}" for i in range(nt)] if aslist else ["only"]
+        style = draw(st.sampled_from(["s", "hhmm", "iso", "num"]))
+        lab = {"s": lambda i: f"s{i}", "hhmm": lambda i: f"{6 * (i + 1):02d}00", "iso": lambda i: f"2024-06-0{i + 1}T12:00",
+               "num": lambda i: f"{i + 1}.5"}[style]
+        met["timestamps"] = [lab(i) for i in range(nt)] if aslist else [lab(0)]
     sol = {"closure": closure}
     if draw(st.booleans()):
         sol["precision"] = draw(st.sampled_from(["single", "double"]))
